@@ -239,9 +239,17 @@ def r2(p, rep):
         raise AnalysisError(f"only {n_range} range() sites found in the lowering code")
 
 
+# (module suffix, selecting function, shape of its argument) -> reason   (structural key: survives renames / extraction)
 ORDER_TABLE = {
-    ("decomposednamedtensor_from_classical::elementwise.inner", "argmax"): "np.argmax over the lengths of one output axis across the inputs, which are all in {1, n}: it selects 'the input that is not 1' - a 1-test in disguise",
+    ("adapter.decomposednamedtensor_from_classical", "argmax", "[a.value for a in S]"): "np.argmax over the lengths of one output axis across the inputs, which are all in {1, n}: it selects 'the input that is not 1' - a 1-test in disguise",
 }
+
+
+def _order_shape(node):
+    a = node.args[0] if node.args else None
+    if isinstance(a, (ast.ListComp, ast.GeneratorExp)) and isinstance(a.elt, ast.Attribute) and a.elt.attr == "value" and isinstance(a.elt.value, ast.Name) and isinstance(a.generators[0].target, ast.Name) and a.elt.value.id == a.generators[0].target.id and not a.generators[0].ifs:
+        return "[a.value for a in S]"
+    return None
 
 
 def r3(p, rep):
@@ -300,7 +308,7 @@ def r3(p, rep):
                     if any(_size_expr(a, tn) is not None for a in node.args) or any(k.arg == "key" and _size_expr(k.value, tn) is not None for k in node.keywords) or (key_names & tn):
                         n += 1
                         key = f"{f.qualname}:{fn}({norm(node.args[0])[:40] if node.args else ''})"
-                        tab = next((r for (q, name), r in ORDER_TABLE.items() if f.qualname.endswith(q) and name == fn), None)
+                        tab = next((r for (q, name, shape), r in ORDER_TABLE.items() if f.module.name.endswith(q) and name == fn and shape == _order_shape(node)), None)
                         if tab:
                             rep.exempt("C17.R3", key, site, tab)
                         elif confined_to_raise(node, f.node):
